@@ -174,7 +174,8 @@ def matches_known(entry, prop, oracle, mismatch, scenario, detail=''):
         return False
     sig = entry['signature']
     oracles = sig.get('oracles') or [sig['oracle']]
-    if oracle not in oracles and '%s/%s' % (oracle, mismatch) not in oracles:
+    if '*' not in oracles and oracle not in oracles and '%s/%s' % (
+            oracle, mismatch) not in oracles:
         return False
     if sig.get('detail_contains') and sig['detail_contains'] not in (
             detail or ''):
